@@ -283,7 +283,7 @@ def check_one(op, word, res, before=()):
     res.case(
         case_repr={"op": op, "word": list(word), "requests": n, "final": final[0], "pauses": [round(s, 3) for s in sleeps],
                    "earlier_calls_on_same_client": [[a, list(b)] for a, b in before]}
-        if res.evaluations % 4001 == 17
+        if res.sample_now(4001)
         else None,
         nontrivial_key=(op, tuple(word), repr(before)) if any(k != "ok" for k in word) else None,
         outcome_key=(n, final[0], len(sleeps), word[-1] if word else ""),
